@@ -81,13 +81,13 @@ def main(pid, argv):
             bad = "neither tree nor error: " + il[:120]
         if bad:
             nf += 1
-            if nf <= 4:
+            if True:
                 def still(d, r, want=bad.split(":")[0]):
                     if not r.startswith("OK "):
                         return False
                     o2 = C.oracle_impl([d], [r]).get(0)
                     return o2 is not None and o2 != "strip=1 wf=1"
-                small = C.shrink(binp, x, still) if ic == "OK" else x
+                small = C.shrink(binp, x, still) if (ic == "OK" and nf <= 4) else x
                 ck.fail("idl-unsound-accept", V.hexs(small), bad, impl=il[:400], model=ml[:400],
                         extra=dict(original=V.hexs(x)[:600], generator=k, text=repr(small[:300])))
             continue
